@@ -1017,3 +1017,68 @@ VARIANTS += [
       _PP_OLD.replace("starts[i])", "i * (total_contexts // n_jobs))"), "R15.8",
       why="start_index of another partition: the simulator reads the cached distances of other rows (seed C15b)"),
 ]
+
+# ---------------------------------------------------------------------------------------------------- round-3 seeds
+VARIANTS += [
+    V("c02-m13", "C02", "linear", "fix_small_variance", "mask = scaler.scale_ <= SCALER_TOLERANCE",
+      "mask = scaler.var_ <= SCALER_TOLERANCE", "R2.7",
+      why="features with a std in (1e-6, 1e-3] are no longer standardised (seed C02c)"),
+    V("c02-b6", "C02", "linear", "fix_small_variance", "mask = scaler.scale_ <= SCALER_TOLERANCE",
+      "too_small = scaler.scale_ <= SCALER_TOLERANCE\nmask = too_small", benign=True),
+    V("c06-m14", "C06", "neighbors", "_Neighbors.partial_fit",
+      "if isinstance(self.lp, _ThompsonSampling) and self.lp.binarizer:\n"
+      "    rewards = self._binarize_ts_rewards(decisions, rewards)",
+      "if isinstance(self.lp, _ThompsonSampling) and self.lp.binarizer:\n"
+      "    rewards = self._binarize_ts_rewards(self.decisions, rewards)", "R6.7",
+      why="a chunk's rewards are converted with the decisions of the stored history (seed C06c)"),
+    V("c03-m10", "C03", "neighbors", "_Radius._predict_contexts",
+      "if indices[0].size > 0:\n"
+      "    predictions[index] = self._get_nhood_predictions(lp, indices, row_2d, is_predict)\n"
+      "else:\n"
+      "    predictions[index] = self._get_no_nhood_predictions(lp, is_predict)",
+      "if np.any(indices):\n"
+      "    predictions[index] = self._get_nhood_predictions(lp, indices, row_2d, is_predict)\n"
+      "else:\n"
+      "    predictions[index] = self._get_no_nhood_predictions(lp, is_predict)", "R3.6",
+      why="a neighbourhood consisting of stored row 0 only is treated as empty (seed C03c)"),
+    V("c01-m12", "C01", "ucb", "_UCB1._drop_existing_arm", "self.arm_to_count.pop(arm)",
+      "self.total_count -= self.arm_to_count.pop(arm)", None,
+      why="N shrinks when an observed arm is removed: the bonus of the remaining arms is too small (seed C01c)"),
+    V("c08-b3", "C08", "ucb", "_UCB1._drop_existing_arm", "self.arm_to_count.pop(arm)",
+      "removed = self.arm_to_count.pop(arm)\nself.last_removed_count = removed", benign=True,
+      why="a scalar computed from an arm's entry has no arm baked in (R8.6 must stay silent)"),
+    V("c05-m16", "C05", "base_mab", "BaseMAB._parallel_predict", "total_contexts = sum(n_contexts)",
+      "total_contexts = n_jobs * n_contexts[0]", "R5.2",
+      why="number of seeds drawn depends on how the rows split over the jobs (seed C05c)"),
+]
+VARIANTS += [
+    V("c08-m14", "C08", "base_mab", "BaseMAB._partition_contexts",
+      "n_contexts_per_job[:n_contexts % n_jobs] += 1",
+      "n_contexts_per_job[:n_contexts % (n_contexts // n_jobs)] += 1", "R8.7",
+      why="remainder taken modulo the chunk size: the last rows get no result (seed C08c)"),
+    V("c08-b4", "C08", "base_mab", "BaseMAB._partition_contexts",
+      "n_contexts_per_job = np.full(n_jobs, n_contexts // n_jobs, dtype=int)",
+      "quotient = n_contexts // n_jobs\nn_contexts_per_job = np.full(n_jobs, quotient, dtype=int)", benign=True),
+    V("c15-m14", "C15", "simulator", "Simulator._train_bandits",
+      "mab = _KNearestSimulator(imp.rng, imp.arms, imp.n_jobs, imp.backend, imp.lp, imp.k, imp.metric, "
+      "is_quick=self.is_quick)",
+      "mab = _KNearestSimulator(imp.rng, self.arms, imp.n_jobs, imp.backend, imp.lp, imp.k, imp.metric, "
+      "is_quick=self.is_quick)", "R15.6",
+      why="wrapper built with the Simulator's arm list instead of the replaced bandit's (seed C15c)"),
+    V("c16-m13", "C16", "simulator", "Simulator._online_test_bandits_chunks",
+      "self._get_partial_evaluation(name, i, batch_decisions, batch_predictions[name], batch_rewards, start, nn)",
+      "self._get_partial_evaluation(name, i, batch_decisions, batch_predictions[name], batch_rewards, "
+      "i * len(batch_decisions), nn)", "R16.7",
+      why="row offset of a ragged last batch is too small (seed C16c)"),
+    V("c17-m9", "C17", "mab", "MAB._validate_fit_args",
+      "check_true(len(decisions) == len(contexts) or (len(decisions) == 1 and isinstance(contexts, pd.Series)), "
+      "ValueError('Decisions and contexts should be same length: len(decision) = ' + str(len(decisions)) + "
+      "' vs. len(contexts) = ' + str(len(contexts))))",
+      "check_true(len(decisions) == len(contexts) or (len(decisions) >= 1 and isinstance(contexts, pd.Series)), "
+      "ValueError('Decisions and contexts should be same length: len(decision) = ' + str(len(decisions)) + "
+      "' vs. len(contexts) = ' + str(len(contexts))))", "R17.5",
+      why="a Series of contexts of any length passes the facade and fails inside training (seed C17c)"),
+    V("c18-m11", "C18", "mab", "MAB.__convert_context", "num_features = self._imp.contexts.shape[1]",
+      "num_features = self._imp.contexts.shape[0]", "R18.5",
+      why="stored rows counted as features: Series contexts reshaped the wrong way (seed C18c)"),
+]
